@@ -153,6 +153,7 @@ def bindings(tree):
 
 
 def run(chk):
+    chk.section("functional-wrappers", lambda: functional_wrappers(chk))
     chk.section("documented-matrices", lambda: t1(chk))
     chk.section("rotation-compiler", lambda: t2(chk))
     chk.section("composite-gates", lambda: t3(chk))
@@ -203,6 +204,14 @@ def t5(chk, i):
                 num = mat.subs({sy: v * sp.pi for sy, v in zip(syms, val)}, simultaneous=True)
                 gates.append({"name": prefix + node.name, "nq": nq, "angles": list(val),
                               "matrix": [[[float(sp.re(sp.N(c, 30))), float(sp.im(sp.N(c, 30)))] for c in num.row(r)] for r in range(num.rows)]})
+    # the functional wrappers of std.quantum: same documented matrices, functional call syntax (two angles / inputs less)
+    fm = e.module("guppylang.std.quantum.functional")
+    fnames = {n_.name for n_ in fm.tree.body if isinstance(n_, ast.FunctionDef)}
+    extra = []
+    for g in gates:
+        if "." not in g["name"] and g["name"] in fnames and (not g["angles"] or g["angles"][0] in (ANGLES[0], ANGLES[3])):
+            extra.append({**g, "name": "qf." + g["name"]})
+    gates += extra
     chk.record(f"bounded[{i}/{NCH_B}]:gate-functions-with-a-documented-matrix", len({g["name"] for g in gates}) >= 22, str(sorted({g["name"] for g in gates})), kind="reachability")
     res = run_replay(ORACLE + DRIVER, {"gates": gates, "chunk": i, "nchunks": NCH_B}, chk.repo, timeout=6000)
     if "evaluations" not in res:
@@ -450,3 +459,38 @@ def t4(chk):
         chk.prove_paths(f"angle.{name}:{want}", e.explore(t2), lambda p, want=want: z3.BoolVal(p.kind == "return" and norm(un(p.value)) == want), func=f"{AN}:angle.{name}")
     e.models.pop(f"{AN}:py", None)
     chk.use_engine(e)
+
+
+def functional_wrappers(chk):
+    """std/quantum/functional.py and std/qsystem/functional.py: "the same gates with functional syntax".
+    Every wrapper `g(p1, ..., pk)` calls the imperative gate OF THE SAME NAME with exactly its own
+    parameters in declaration order — so its matrix and qubit order are the documented ones of that gate —
+    and returns its qubit parameters in declaration order (followed by the measurement result where the
+    gate has one)."""
+    n = 0
+    for modname, alias in (("guppylang.std.quantum.functional", "quantum"), ("guppylang.std.qsystem.functional", "qsystem")):
+        e = mk_engine(chk)
+        m = e.module(modname)
+        for node in m.tree.body:
+            if not isinstance(node, ast.FunctionDef):
+                continue
+            e.func_info(modname, node.name)
+            params = [a.arg for a in node.args.args]
+            qubits = [a.arg for a in node.args.args if "qubit" in ast.unparse(a.annotation)]
+            body = [s_ for s_ in node.body if not (isinstance(s_, ast.Expr) and isinstance(s_.value, ast.Constant))]
+            call = body[0].value if body and isinstance(body[0], (ast.Expr, ast.Assign)) else None
+            ok = isinstance(call, ast.Call) and ast.unparse(call.func) == f"{alias}.{node.name}" and [ast.unparse(a) for a in call.args] == params and not call.keywords
+            res = body[0].targets[0].id if ok and isinstance(body[0], ast.Assign) and isinstance(body[0].targets[0], ast.Name) else None
+            consumed = "owned" in ast.unparse(node.args.args[0].annotation) and len(body) == 1 and node.returns is not None and ast.unparse(node.returns) == "None"
+            if len(body) == 2 and isinstance(body[1], ast.Return) and body[1].value is not None:
+                rv = body[1].value
+                got = [ast.unparse(x) for x in rv.elts] if isinstance(rv, ast.Tuple) else [ast.unparse(rv)]
+                want_a = qubits + ([res] if res else [])
+                ok = ok and (got == want_a or (res is not None and got == [res]))      # measure(q @owned) returns only the result
+            else:
+                ok = ok and consumed                                                          # qfree: consumes the qubit, returns nothing
+            chk.record(f"{modname.split('.')[-2]}.functional.{node.name}:calls-{alias}.{node.name}-with-its-own-parameters-in-order/\\returns-its-qubits-in-order", bool(ok),
+                       " ; ".join(ast.unparse(s_) for s_ in body)[:200], func=f"{modname}:{node.name}", backend="structural (AST of the real wrapper)")
+            n += 1
+        chk.use_engine(e)
+    chk.record("functional-wrappers:all-found", n >= 28, str(n), kind="reachability")
